@@ -40,6 +40,7 @@ type drvRequest struct {
 	MirrorDst     string            `json:"mirror_dst,omitempty"`
 	MirrorPort    int               `json:"mirror_port,omitempty"`
 	MirrorWorkers int               `json:"mirror_workers,omitempty"`
+	MirrorLive    bool              `json:"mirror_live,omitempty"`
 	Phases        [][]drvDatagram   `json:"phases,omitempty"`
 	Args          []string          `json:"args,omitempty"`
 	Env           map[string]string `json:"env,omitempty"`
